@@ -22,3 +22,100 @@ class IdentifierOfLicense:
     def post(self, path, result):
         # the identifier of LICENSES/<stem><suffix> is its stem, accepted when on the SPDX maps or a LicenseRef-
         return result == path.stem
+
+
+# ---- C04: per-file sources and precedence ------------------------------------------------------------------------------
+from reuse.global_licensing import PrecedenceType
+
+own_info = ufun("own_info", ["Path", "Path", "Path"], "ReuseInfo")
+global_infos = ufun("global_infos", ["GlobalLicensing", "Path"], "dict[PrecedenceType, list[ReuseInfo]]")
+is_binary_file = ufun("is_binary", ["str"], "bool")
+relative_of = ufun("relative_of", ["Path", "Path"], "Path")
+path_of_str = ufun("path_of_str", ["str"], "Path")
+
+
+@spec
+def license_path(path):
+    """FILE.license if it exists, otherwise FILE (an adjacent .license file replaces the file's own content)"""
+    sibling = path_of_str(str(path) + ".license")
+    return sibling if sibling.exists() else path
+
+
+@contract("reuse._util._determine_license_path", serves=["C04"])
+class DetermineLicensePath:
+    types = {"path": "Path", "return": "Path"}
+
+    def post(path, result):
+        return result == license_path(path)
+
+
+@contract("reuse.extract.reuse_info_of_file", serves=["C04"], assumed=True,
+          why="what a file declares is C02's obligation; here the result is the ghost record own_info(path, original_path, root)")
+class ReuseInfoOfFileAssumed:
+    types = {"path": "Path", "original_path": "Path", "root": "Path", "return": "ReuseInfo"}
+
+    def post(path, original_path, root, result):
+        return result == own_info(path, original_path, root)
+
+
+@spec
+def has_c(infos, v, sp, st):
+    """(copyright line v, source sp, source type st) is among what `infos` attributes"""
+    return exists(lambda i: i in infos and v in i.copyright_lines and i.source_path == sp and i.source_type == st, "ReuseInfo")
+
+
+@spec
+def has_l(infos, x, sp, st):
+    return exists(lambda i: i in infos and x in i.spdx_expressions and i.source_path == sp and i.source_type == st, "ReuseInfo")
+
+
+@spec
+def dget(d, k):
+    return d[k] if k in d else []
+
+
+@contract("reuse.project.Project.reuse_info_of", serves=["C04", "C01"])
+class ProjectReuseInfoOf:
+    types = {"self": "Project", "path": "Path", "return": "list[ReuseInfo]"}
+    # an arbitrary (value, source, source type) triple of each kind: what the JSON exposes per item
+    ghost = {"v0": "str", "x0": "Expr", "sp0": "Optional[str]", "st0": "Optional[SourceType]"}
+
+    def post(self, path, result, v0, x0, sp0, st0):
+        lp = license_path(path)
+        G = global_infos(self.global_licensing, relative_of(self.root, path)) if self.global_licensing is not None else {}
+        ov = dget(G, PrecedenceType.OVERRIDE)
+        agg = dget(G, PrecedenceType.AGGREGATE)
+        clo = dget(G, PrecedenceType.CLOSEST)
+        own = own_info(lp, path, self.root)
+        readable = not is_binary_file(str(lp))
+        mine_c = readable and v0 in own.copyright_lines and own.source_path == sp0 and own.source_type == st0
+        mine_l = readable and x0 in own.spdx_expressions and own.source_path == sp0 and own.source_type == st0
+        own_has_c = readable and bool(own.copyright_lines)
+        own_has_l = readable and bool(own.spdx_expressions)
+        if PrecedenceType.OVERRIDE in G:
+            # override: REUSE.toml is the only source -- everything reported comes from the global file and the
+            # override tables are all reported (sandwich: the statement is silent about shallower aggregate/closest tables)
+            return (implies(has_c(ov, v0, sp0, st0), has_c(result, v0, sp0, st0))
+                    and implies(has_c(result, v0, sp0, st0), has_c(ov, v0, sp0, st0) or has_c(agg, v0, sp0, st0) or has_c(clo, v0, sp0, st0))
+                    and implies(has_l(ov, x0, sp0, st0), has_l(result, x0, sp0, st0))
+                    and implies(has_l(result, x0, sp0, st0), has_l(ov, x0, sp0, st0) or has_l(agg, x0, sp0, st0) or has_l(clo, x0, sp0, st0)))
+        # aggregate adds to the file's own; closest supplies whichever of copyright / licensing the file lacks
+        return (has_c(result, v0, sp0, st0) == (has_c(agg, v0, sp0, st0) or mine_c or (not own_has_c and has_c(clo, v0, sp0, st0)))
+                and has_l(result, x0, sp0, st0) == (has_l(agg, x0, sp0, st0) or mine_l or (not own_has_l and has_l(clo, x0, sp0, st0))))
+
+    loops = {
+        # for closest in global_results[CLOSEST]  (file has exactly one of copyright / licensing)
+        2: LoopSpec(
+            inv=lambda result, old_result, file_result, _i, _it, v0, x0, sp0, st0: (
+                has_c(result, v0, sp0, st0)
+                == (has_c(old_result, v0, sp0, st0)
+                    or (not file_result.copyright_lines
+                        and exists(lambda j: 0 <= j and j < _i and v0 in _it[j].copyright_lines and _it[j].source_path == sp0
+                                   and _it[j].source_type == st0, "int")))
+                and has_l(result, x0, sp0, st0)
+                == (has_l(old_result, x0, sp0, st0)
+                    or (bool(file_result.copyright_lines)
+                        and exists(lambda j: 0 <= j and j < _i and x0 in _it[j].spdx_expressions and _it[j].source_path == sp0
+                                   and _it[j].source_type == st0, "int")))),
+            types={"closest": "ReuseInfo"}),
+    }
